@@ -41,3 +41,23 @@ Example fold_examples :
   fold_div 7 0 = Reject ERROR_DIVISION_BY_ZERO /\ fold_add INT64_MAX 1 = Reject ERROR_INTEGER_OVERFLOW /\
   fold_shl 1 (-1) = Reject ERROR_INVALID_OPERAND /\ fold_div INT64_MIN (-1) = Folded YR_UNDEFINED.
 Proof. vm_compute. repeat split; reflexivity. Qed.
+
+(* ---- the shortcuts of yr_scan_verify_match for text strings (Model/Verify.v) *)
+From Coq Require Import List NArith.
+From YV Require Import Base.Bytes Model.Image Model.AC Model.Verify Proofs.VerifyProofs.
+Import ListNotations.
+
+(* STRING_FLAGS_FIXED_OFFSET (a string used only as `$s at K`): the scan records exactly those matches of the unrestricted
+   scan that are at K - nothing at K is lost, whichever atom hit proposes it and in whichever order *)
+Theorem fixed_offset_shortcut_exact : forall cr sidx fl s K buf,
+  scan_string cr sidx fl s (Some K) buf = filter (at_offset K) (scan_string cr sidx fl s None buf).
+Proof. exact fixed_offset_shortcut_exact_proof. Qed.
+Print Assumptions fixed_offset_shortcut_exact.
+
+(* fast mode + STRING_FLAGS_SINGLE_MATCH (a string used only as `$s`): verification stops after the first recorded match;
+   a match is recorded iff the unrestricted scan records one, and it is at one of the unrestricted scan's offsets *)
+Theorem fast_mode_single_match_verdict : forall cr sidx fl s fixed buf,
+  (scan_string_fast cr sidx fl s fixed buf = [] <-> scan_string cr sidx fl s fixed buf = []) /\
+  (forall x, In x (scan_string_fast cr sidx fl s fixed buf) -> exists x', In x' (scan_string cr sidx fl s fixed buf) /\ fst x' = fst x).
+Proof. exact fast_mode_single_match_proof. Qed.
+Print Assumptions fast_mode_single_match_verdict.
